@@ -4,66 +4,89 @@
 (* n+1 line boundaries with the same iterator skipped by one (Rust std       *)
 (* semantics of Zip/Skip/slice::Iter incl. the trimming that Zip::next_back  *)
 (* does), whose reported length is the length of the underlying Zip.         *)
-(* TLC checks, for every n <= MaxN and every sequence of front/back steps,   *)
-(* that (B) returns what (A) demands and that the contract holds.            *)
+(* Steps: next, next_back, nth(k), nth_back(k) - the last two as the default *)
+(* methods of Iterator / DoubleEndedIterator define them (SeqLines does not  *)
+(* override them): repeated next / next_back, stopping at the first end.     *)
+(* TLC checks, for every n <= MaxN and every sequence of such steps, that    *)
+(* (B) returns what (A) demands and that the contract holds.                 *)
 EXTENDS Naturals, Sequences, FiniteSets, TLC
-CONSTANTS MaxN, MaxSteps
+CONSTANTS MaxN, MaxSteps, MaxK
 VARIABLES n,            \* number of sequence lines (items)
-          f, b,         \* (A) items taken from the front / the back
-          af, ab,       \* (B) slice iterator over boundaries 1..n+1: next index from the front, last index from the back
-          bf, bb,       \* (B) the skipped iterator: items are boundaries 2..n+1
-          fronts, backs, \* history: item numbers returned
+          f, b,         \* (A) items consumed from the front / the back (returned or skipped)
+          z,            \* (B) [af, ab: slice iterator over boundaries 1..n+1 (next index from the front, last index from the
+                        \*      back); bf, bb: the skipped iterator, whose items are boundaries 2..n+1]
+          fronts, backs, \* history: item numbers returned by front / back steps
           ended,        \* a step has reported the end
           last,         \* what the last step returned in (B): 0 = end
+          want,         \* what the last step had to return according to (A): 0 = end
           steps
-vars == <<n, f, b, af, ab, bf, bb, fronts, backs, ended, last, steps>>
+vars == <<n, f, b, z, fronts, backs, ended, last, want, steps>>
 
 \* ---- (A)
 RemA == n - f - b
-\* ---- (B)  a: indices af..ab of 1..n+1; bsk: indices bf..bb of 2..n+1
+\* a step that takes k+1 items from one end: the item it has to return (0 = end) and the new consumption counts
+AFront(k) == IF k + 1 <= RemA THEN [ret |-> f + k + 1, f |-> f + k + 1, b |-> b] ELSE [ret |-> 0, f |-> f + RemA, b |-> b]
+ABack(k)  == IF k + 1 <= RemA THEN [ret |-> n + 1 - (b + k + 1), f |-> f, b |-> b + k + 1] ELSE [ret |-> 0, f |-> f, b |-> b + RemA]
+
+\* ---- (B)
 LenIt(lo, hi) == IF hi >= lo THEN hi - lo + 1 ELSE 0
-ZipLen == IF LenIt(af, ab) < LenIt(bf, bb) THEN LenIt(af, ab) ELSE LenIt(bf, bb)
-ReportedLen == ZipLen         \* SeqLines::len() = pos_iter.len(); size_hint() = (len, Some(len))
-
-Init == /\ n \in 0..MaxN /\ f = 0 /\ b = 0 /\ af = 1 /\ ab = n + 1 /\ bf = 2 /\ bb = n + 1
-        /\ fronts = <<>> /\ backs = <<>> /\ ended = FALSE /\ last = 0 /\ steps = 0
-
-\* Zip::next: a.next() then b.next(); the pair (boundary i, boundary i+1) is line i
-Next_ == /\ steps < MaxSteps /\ steps' = steps + 1
-         /\ IF LenIt(af, ab) > 0 /\ LenIt(bf, bb) > 0
-            THEN /\ last' = af /\ af' = af + 1 /\ bf' = bf + 1 /\ UNCHANGED <<ab, bb>>
-                 /\ fronts' = Append(fronts, af) /\ UNCHANGED <<backs, ended>>
-                 /\ f' = f + 1 /\ UNCHANGED b
-            ELSE /\ last' = 0 /\ ended' = TRUE
-                 \* a.next() is evaluated first and consumes an item even if b is exhausted
-                 /\ af' = IF LenIt(af, ab) > 0 THEN af + 1 ELSE af
-                 /\ UNCHANGED <<ab, bf, bb, fronts, backs, f, b>>
-         /\ UNCHANGED n
+ZipLenOf(y) == IF LenIt(y.af, y.ab) < LenIt(y.bf, y.bb) THEN LenIt(y.af, y.ab) ELSE LenIt(y.bf, y.bb)
+ReportedLen == ZipLenOf(z)         \* SeqLines::len() = pos_iter.len(); size_hint() = (len, Some(len))
+\* Zip::next: a.next() then b.next(); the pair (boundary i, boundary i+1) is line i.
+\* a.next() is evaluated first and consumes an item even if b is exhausted
+ZNext(y) == IF LenIt(y.af, y.ab) > 0 /\ LenIt(y.bf, y.bb) > 0
+            THEN [z |-> [y EXCEPT !.af = @ + 1, !.bf = @ + 1], ret |-> y.af]
+            ELSE [z |-> [y EXCEPT !.af = IF LenIt(y.af, y.ab) > 0 THEN @ + 1 ELSE @], ret |-> 0]
 \* Zip::next_back (both sides ExactSize): trim the longer one from the back, then next_back on both
-NextBack == /\ steps < MaxSteps /\ steps' = steps + 1
-            /\ LET la == LenIt(af, ab)  lb == LenIt(bf, bb)
-                   ab1 == IF la > lb THEN ab - (la - lb) ELSE ab
-                   bb1 == IF lb > la THEN bb - (lb - la) ELSE bb
-               IN IF LenIt(af, ab1) > 0 /\ LenIt(bf, bb1) > 0
-                  THEN /\ last' = ab1 /\ ab' = ab1 - 1 /\ bb' = bb1 - 1 /\ UNCHANGED <<af, bf>>
-                       /\ backs' = Append(backs, ab1) /\ UNCHANGED <<fronts, ended>>
-                       /\ b' = b + 1 /\ UNCHANGED f
-                  ELSE /\ last' = 0 /\ ended' = TRUE /\ ab' = ab1 /\ bb' = bb1
-                       /\ UNCHANGED <<af, bf, fronts, backs, f, b>>
-            /\ UNCHANGED n
-Step == Next_ \/ NextBack
+ZNextBack(y) ==
+  LET la == LenIt(y.af, y.ab)  lb == LenIt(y.bf, y.bb)
+      ab1 == IF la > lb THEN y.ab - (la - lb) ELSE y.ab
+      bb1 == IF lb > la THEN y.bb - (lb - la) ELSE y.bb
+  IN IF LenIt(y.af, ab1) > 0 /\ LenIt(y.bf, bb1) > 0
+     THEN [z |-> [y EXCEPT !.ab = ab1 - 1, !.bb = bb1 - 1], ret |-> ab1]
+     ELSE [z |-> [y EXCEPT !.ab = ab1, !.bb = bb1], ret |-> 0]
+\* Iterator::nth / DoubleEndedIterator::nth_back (default methods)
+RECURSIVE ZNth(_, _), ZNthBack(_, _)
+ZNth(y, k) == LET r == ZNext(y) IN IF r.ret = 0 \/ k = 0 THEN r ELSE ZNth(r.z, k - 1)
+ZNthBack(y, k) == LET r == ZNextBack(y) IN IF r.ret = 0 \/ k = 0 THEN r ELSE ZNthBack(r.z, k - 1)
+
+Init == /\ n \in 0..MaxN /\ f = 0 /\ b = 0 /\ z = [af |-> 1, ab |-> n + 1, bf |-> 2, bb |-> n + 1]
+        /\ fronts = <<>> /\ backs = <<>> /\ ended = FALSE /\ last = 0 /\ want = 0 /\ steps = 0
+
+FrontStep(k, viaNth) ==
+  /\ steps < MaxSteps /\ steps' = steps + 1
+  /\ LET r == IF viaNth THEN ZNth(z, k) ELSE ZNext(z)
+         a == AFront(k)
+     IN /\ z' = r.z /\ last' = r.ret /\ want' = a.ret /\ f' = a.f /\ b' = a.b
+        /\ fronts' = IF r.ret # 0 THEN Append(fronts, r.ret) ELSE fronts
+        /\ ended' = (ended \/ r.ret = 0)
+  /\ UNCHANGED <<n, backs>>
+BackStep(k, viaNth) ==
+  /\ steps < MaxSteps /\ steps' = steps + 1
+  /\ LET r == IF viaNth THEN ZNthBack(z, k) ELSE ZNextBack(z)
+         a == ABack(k)
+     IN /\ z' = r.z /\ last' = r.ret /\ want' = a.ret /\ f' = a.f /\ b' = a.b
+        /\ backs' = IF r.ret # 0 THEN Append(backs, r.ret) ELSE backs
+        /\ ended' = (ended \/ r.ret = 0)
+  /\ UNCHANGED <<n, fronts>>
+Next_ == FrontStep(0, FALSE)
+NextBack == BackStep(0, FALSE)
+Nth == \E k \in 0..MaxK : FrontStep(k, TRUE)
+NthBack == \E k \in 0..MaxK : BackStep(k, TRUE)
+Step == Next_ \/ NextBack \/ Nth \/ NthBack
 Spec == Init /\ [][Step]_vars
 
 \* ---- the contract (C20)
+ReturnsWhatIsDue == last = want
 LenIsRemaining == ReportedLen = RemA
 Range(sq) == {sq[i] : i \in 1..Len(sq)}
 EachItemOnce == /\ Cardinality(Range(fronts) \cup Range(backs)) = Len(fronts) + Len(backs)
                 /\ Range(fronts) \cup Range(backs) \subseteq 1..n
-FrontOrder == \A i \in 1..Len(fronts) : fronts[i] = i
-BackOrder == \A i \in 1..Len(backs) : backs[i] = n + 1 - i
+FrontOrder == \A i, j \in 1..Len(fronts) : i < j => fronts[i] < fronts[j]
+BackOrder == \A i, j \in 1..Len(backs) : i < j => backs[i] > backs[j]
 EndsMeet == \A x \in Range(fronts), y \in Range(backs) : x < y
 EndOnlyWhenEmpty == ended => RemA = 0
 \* fused: once the end was reported, every further step reports the end
 Fused == [][ended => last' = 0]_vars
-AllYielded == ended => Len(fronts) + Len(backs) = n
+AllConsumed == ended => f + b = n
 =============================================================================
